@@ -277,7 +277,8 @@ func generate(rng *rand.Rand, tier string) []interface{} {
 
 func corpus() []interface{} {
 	return []interface{}{
-		// C18-N1: a roster file has no place for per-service keys
+		// a roster file has no place for per-service keys (format limitation, observation): they are
+		// expected NOT to come back; the written ID field must
 		input{Kind: "rosterfile", Label: "full", Servers: []serverIn{{
 			Addr: "tls://10.0.0.1:7770", Suite: "Ed25519", Key: 1,
 			Services: []svcIn{{Name: "Skipchain", Suite: "Ed25519", RegWith: "Ed25519", Key: 101}}}}},
